@@ -1,6 +1,6 @@
 (* C12 - the shipped license tables are exactly what the SPDX source data says. *)
 From Spdx Require Import Props.Shipped Spec.TablesSpec Spec.Grammar Gen.SpdxJson Gen.Files Gen.Template
-  WF.JsonPartition WF.FilesRegenerate WF.IdsParse Proofs.ExcGuard Proofs.ParseGrammar Proofs.MatchProof Proofs.TablesSound.
+  WF.JsonPartition WF.FilesRegenerate WF.IdsParse Proofs.ExcGuard Proofs.ParseGrammar Proofs.MatchProof Proofs.TablesSound Proofs.FoldUnique.
 Local Open Scope list_scope.
 
 (* every non-deprecated license id is active, every deprecated one deprecated, every non-deprecated exception id
@@ -17,9 +17,15 @@ Theorem C12_files_regenerate :
   gen_exceptions_file tpl_exceptions json_exceptions = file_get_exceptions.
 Proof. exact (chk_files_regenerate_sound _ _ _ _ _ _ _ _ chk_files_regenerate_shipped). Qed.
 
-(* pairwise disjoint, no two ids equal up to letter case *)
-Theorem C12_disjoint_fold_unique x y : In x (all_ids T0) -> In y (all_ids T0) -> fold_eqb x y = true -> x = y.
-Proof. exact (chk_fold_unique_sound T0 chk_fold_unique_shipped x y). Qed.
+(* pairwise disjoint, no two ids equal up to letter case: no id occurs twice in active ++ deprecated ++ exceptions, two
+   POSITIONS never hold ids that are equal up to case, and ids of different lists are not equal even up to case *)
+Theorem C12_disjoint_fold_unique :
+  NoDup (active T0 ++ deprec T0 ++ excs T0) /\
+  (forall i j x y, nth_error (all_ids T0) i = Some x -> nth_error (all_ids T0) j = Some y -> fold_eqb x y = true -> i = j) /\
+  (forall x y, In x (active T0) -> In y (deprec T0) -> fold_eqb x y = false) /\
+  (forall x y, In x (active T0) -> In y (excs T0) -> fold_eqb x y = false) /\
+  (forall x y, In x (deprec T0) -> In y (excs T0) -> fold_eqb x y = false).
+Proof. exact (fold_unique_lists T0 chk_fold_unique_shipped). Qed.
 
 (* every listed license id is a one-term expression; every exception id is accepted after WITH, not alone *)
 Theorem C12_ids_parse :
